@@ -43,18 +43,18 @@ func approvals(rng *kernel.RNG, op string, target int64, nval int) []kernel.Step
 
 // GenWorkload produces a list of transaction steps and "block" cuts.
 func GenWorkload(rng *kernel.RNG, c GenCfg) []kernel.Step {
-	weights := map[string]int{"chain": 4, "import": 6, "cand": 3, "relayer": 2, "node": 2, "priv": 2, "noise": 2, "sig": 1, "burst": 1, "delonly": 0, "twoepochs": 1, "returning": 1}
+	weights := map[string]int{"chain": 4, "import": 6, "cand": 3, "relayer": 2, "node": 2, "priv": 2, "noise": 2, "sig": 1, "burst": 1, "delonly": 0, "twoepochs": 1, "returning": 1, "ripple": 1}
 	for k, v := range c.W {
 		weights[k] = v
 	}
 	// swarm: switch some families off entirely in some runs
-	for _, k := range []string{"chain", "import", "cand", "relayer", "node", "priv", "noise", "sig", "burst", "delonly", "twoepochs", "returning"} {
+	for _, k := range []string{"chain", "import", "cand", "relayer", "node", "priv", "noise", "sig", "burst", "delonly", "twoepochs", "returning", "ripple"} {
 		if _, forced := c.W[k]; !forced && rng.Chance(0.15) {
 			weights[k] = 0
 		}
 	}
 	var fams []string
-	for _, k := range []string{"chain", "import", "cand", "relayer", "node", "priv", "noise", "sig", "burst", "delonly", "twoepochs", "returning"} {
+	for _, k := range []string{"chain", "import", "cand", "relayer", "node", "priv", "noise", "sig", "burst", "delonly", "twoepochs", "returning", "ripple"} {
 		for i := 0; i < weights[k]; i++ {
 			fams = append(fams, k)
 		}
@@ -168,6 +168,38 @@ func GenWorkload(rng *kernel.RNG, c GenCfg) []kernel.Step {
 				}
 			case 3:
 				txs = append(txs, S("import", src, dst, msg, anyone(), variant))
+			}
+		case "ripple":
+			// a source chain on the ripple router (validator votes like the vote router, plus an asset
+			// binding per destination), its binding for one destination, vote rounds and replays
+			id, dst, o := int64(rng.Intn(4)), int64(rng.Intn(4)), int64(rng.Intn(nUsers))
+			owner[id] = o
+			txs = append(txs, S("regchain", id, 23, o, int64(rng.Intn(3))))
+			txs = append(txs, approvals(rng, "approvechain", id, c.NVal)...)
+			if _, ok := owner[dst]; !ok && dst != id {
+				owner[dst] = int64(rng.Intn(nUsers))
+				txs = append(txs, S("regchain", dst, 0, owner[dst], 0))
+				txs = append(txs, approvals(rng, "approvechain", dst, c.NVal)...)
+			}
+			if rng.Chance(0.85) {
+				who := o
+				if rng.Chance(0.15) {
+					who = int64(rng.Intn(nUsers))
+				}
+				txs = append(txs, S("cut"), S("regasset", id, who, dst, int64(rng.Intn(3))))
+			}
+			txs = append(txs, S("cut"))
+			for k := 0; k < 1+rng.Intn(3); k++ {
+				msg := int64(rng.Intn(6))
+				for _, st := range approvals(rng, "import", 0, c.NVal) {
+					txs = append(txs, S("import", id, dst, msg, st.A[1], 0))
+				}
+				if rng.Chance(0.5) { // replay round, same or altered payload
+					v := int64(rng.Intn(2))
+					for _, st := range approvals(rng, "import", 0, c.NVal) {
+						txs = append(txs, S("import", id, dst, msg, st.A[1], v))
+					}
+				}
 			}
 		case "delonly":
 			// a transaction that only deletes (unRegisterCandidate by the right owner, a whitelisting
